@@ -1,15 +1,15 @@
 SPECIFICATION Spec
 CONSTANTS
-  ServerEnv = TRUE
+  ServerEnv = FALSE
   ClientEnv = TRUE
-  Lens <- L201
-  OutLens <- O3x2
+  Lens <- L12
+  OutLens <- O2
   TrailerLen <- NoTrailer
-  DeclaredLen = FALSE
+  DeclaredLen = TRUE
   Limit = 6
   Cuts = TRUE
   MaxWrite = 7
-  Variant = "code"
+  Variant = "cl_ignored"
 INVARIANT TypeOK
 INVARIANT OutIsCanonPrefix
 INVARIANT WholeMessagesOnly
